@@ -688,6 +688,9 @@ class RecordContextMatcher:
                 if resolved_gen is not NONE_OBJECT:
                     for val in resolved_gen:
                         self.data[loop_index_var_name] = val
+                        # the conditions of a comprehension (`for x in xs if cond`) filter the values like Python does
+                        if not all(self.eval(cond) for cond in gen.ifs):
+                            continue
                         if len(gens) > 0:
                             for subval in recursive_generator(gens):
                                 yield subval
